@@ -92,19 +92,11 @@ func bldSplitDescs(fields []modbus.Field, reqs []modbus.BuilderRequest) (V, []V)
 // bldExtractDesc: the projection of the "extract" entry for one request and its response
 func bldExtractDesc(target int, fields []modbus.Field, q modbus.BuilderRequest, resp packet.Response, perr error) V {
 	_, s, qq := deviceReply(target%2 == 0, 0, q.Bytes(), -1)
-	var strict, lenient V
-	if perr != nil {
-		strict, lenient = L(I(4)), L(I(4))
-	} else {
-		strict = guard(func() V {
-			vals, e := q.ExtractFields(resp, false)
-			return projExtraction(fields, vals, e)
-		})
-		lenient = guard(func() V {
-			vals, e := q.ExtractFields(resp, true)
-			return projExtraction(fields, vals, e)
-		})
+	h := heldExtraction{noResp: perr != nil}
+	if perr == nil {
+		h.run(q, resp)
 	}
+	strict, lenient := h.strict(fields), h.lenient(fields)
 	return L(S(q.ServerAddress), I(int(q.UnitID)), I(s), I(qq), strict, lenient)
 }
 
